@@ -415,14 +415,15 @@ where
     let mut flush_lost = 0usize;
     macro_rules! go {
         ($E:ty) => {{
-            let mut bw = BufBitWriter::<$E, _>::new(WordAdapter::<W, _>::new(sink.clone()));
+            // (ManuallyDrop: a panic while writing must not run the writer's flushing Drop on the armed sink)
+            let mut bw = std::mem::ManuallyDrop::new(BufBitWriter::<$E, _>::new(WordAdapter::<W, _>::new(sink.clone())));
             for &(v, n) in fields {
                 if bw.write_bits(v & crate::ops::mask64(n as usize), n as usize).is_err() {
                     errored = true;
                     break;
                 }
             }
-            if !errored && BitWrite::flush(&mut bw).is_err() {
+            if !errored && BitWrite::flush(&mut *bw).is_err() {
                 errored = true;
             }
             if !errored && sink.0.borrow().unflushed != 0 {
@@ -431,7 +432,7 @@ where
             let at_error = sink.0.borrow().bytes.clone();
             // no more faults while the writer is torn down (its Drop unwraps the flush result)
             sink.0.borrow_mut().armed = false;
-            drop(bw);
+            drop(std::mem::ManuallyDrop::into_inner(bw));
             at_error
         }};
     }
@@ -600,7 +601,7 @@ fn run(ctx: &Ctx, env: &Env) -> Stats {
         }
         part.finish()
     }));
-    let n_rand = ctx.t(100_000u64, 2_000_000);
+    let n_rand = ctx.t(100_000u64, 8_000_000);
     for j in 0..8 {
         jobs.push(Box::new(move |ctx: &Ctx| {
             let mut part = Part::new(ctx, format!("random/{}", j), "proptest byte strings decoded into word-level and bit-level cases with fault schedules", false);
